@@ -3,3 +3,5 @@ pub mod flav;
 pub mod core;
 pub mod report;
 pub mod seq;
+pub mod model;
+pub mod search;
